@@ -316,6 +316,31 @@ def pinv(A, rcond=None, hermitian=False, **kw):
     return res
 
 
+def solve(A, Bv, left=True, **kw):
+    """A x = b.  Non-singular A: the exact solution.  Singular A: the real kernel (LU with partial pivoting) "rarely hits an exact zero pivot" and
+    returns rounding-driven numbers, or raises: both outcomes are explored - an ARBITRARY vector, or LinAlgError."""
+    if A.dim() != 2 or A.shape[0] != A.shape[1]:
+        raise ShimUnsupported("linalg.solve on a non-square / batched matrix")
+    T = _T()
+    n = A.shape[0]
+    M = _rows(A)
+    d = _det(M)
+    vec = Bv.dim() == 1
+    Bm = [[x] for x in Bv._flat()] if vec else _rows(Bv)
+    if len(Bm) != n:
+        raise RuntimeError("linalg.solve: incompatible shapes")
+    if bool(d != 0):
+        X = _matmul_l([[x / d for x in r] for r in _adj(M)], Bm)
+    else:
+        if symx.choice(2, "singular_solve_raises") == 1:
+            raise LinAlgError("linalg.solve: The solver failed because the input matrix is singular.")
+        X = [[symx.fresh(f"solve{i}{j}") for j in range(len(Bm[0]))] for i in range(n)]
+    flat = [x for r in X for x in r]
+    res = T._make(flat, (n,) if vec else (n, len(Bm[0])), A.dtype)
+    log("kernel", "solve", A, res)
+    return res
+
+
 def inv(A):
     M = _rows(A)
     d = _det(M)
